@@ -681,6 +681,9 @@ func init() {
 //	    ("marshal","MarshalBinary") ("register","onPacketWriten") ("write","WriteMessage")
 //	    ("unregister_on_fail","onPacketWriteFailed")  -- the last one only when it is inside the
 //	    `if err = v.WriteMessage(m); err != nil { .. }` block
+//	rtmp_onPacketWriten_kinds, rtmp_onPacketWriteFailed_kinds   which packets registration / roll-back apply
+//	    to: ("kinds_from", <function that yields (tid, name)>) and ("guard", <condition>);
+//	rtmp_requestTransaction_kinds  the packet types with a transaction (cases of its type switch)
 //	rtmp_WriteMessage_skel      writes of the message into the buffered writer and the flush, in order:
 //	    ("chunk_write","v.w") per io.Copy(v.w, ..)/v.w.Write call site, ("flush","v.w"),
 //	    ("written_hook",..); a registration call in here shows as ("register",..).  bufio.Writer
@@ -761,6 +764,23 @@ func init() {
 			if recvName(fd) != "Protocol" {
 				if fd.Body != nil && wsMentions(fd.Body, "transactions") {
 					others = append(others, skelEv{fd.Name.Name, "touches transactions"})
+				}
+				if fd.Name.Name == "requestTransaction" && fd.Recv == nil {
+					// the packet kinds that carry a transaction: the cases of the type switch
+					var kinds []skelEv
+					ast.Inspect(fd.Body, func(n ast.Node) bool {
+						if cc, ok := n.(*ast.CaseClause); ok {
+							for _, e := range cc.List {
+								kinds = append(kinds, skelEv{"case", strings.TrimPrefix(exprStr(e), "*")})
+							}
+							if cc.List == nil {
+								kinds = append(kinds, skelEv{"case", "default"})
+							}
+						}
+						return true
+					})
+					g.emitSkel("rtmp_requestTransaction_kinds", kinds, true, "")
+					seen["requestTransaction"] = true
 				}
 				continue
 			}
@@ -849,6 +869,26 @@ func init() {
 			case "onPacketWriten", "onPacketWriteFailed":
 				g.emitSkel("rtmp_"+fd.Name.Name+"_skel", g.txScope(fd.Body), true, "")
 				seen[fd.Name.Name] = true
+				// WHICH packets does it apply to: where do (tid, name) come from, and under which guard
+				var src []skelEv
+				ast.Inspect(fd.Body, func(n ast.Node) bool {
+					switch x := n.(type) {
+					case *ast.AssignStmt:
+						if len(x.Lhs) == 2 && len(x.Rhs) == 1 {
+							if ce, ok := x.Rhs[0].(*ast.CallExpr); ok {
+								src = append(src, skelEv{"kinds_from", exprStr(ce.Fun)})
+							}
+						}
+					case *ast.IfStmt:
+						if x.Init == nil && wsMentions(x.Body, "transactions") {
+							src = append(src, skelEv{"guard", exprStr(x.Cond)})
+						}
+					case *ast.TypeSwitchStmt:
+						src = append(src, skelEv{"kinds_from", "type switch in " + fd.Name.Name})
+					}
+					return true
+				})
+				g.emitSkel("rtmp_"+fd.Name.Name+"_kinds", src, true, "")
 			case "parseAMFObject":
 				g.emitSkel("rtmp_parseAMFObject_tx_skel", g.txScope(fd.Body), true, "")
 				seen[fd.Name.Name] = true
@@ -860,9 +900,12 @@ func init() {
 		}
 		for n, nm := range map[string]string{"WritePacket": "rtmp_WritePacket_skel", "onPacketWriten": "rtmp_onPacketWriten_skel",
 			"onPacketWriteFailed": "rtmp_onPacketWriteFailed_skel", "parseAMFObject": "rtmp_parseAMFObject_tx_skel",
-			"WriteMessage": "rtmp_WriteMessage_skel"} {
+			"WriteMessage": "rtmp_WriteMessage_skel", "requestTransaction": "rtmp_requestTransaction_kinds"} {
 			if !seen[n] {
 				g.emitSkel(nm, []skelEv{}, true, "") // absent function = empty skeleton (rejected or accepted by the model's predicate)
+				if n == "onPacketWriten" || n == "onPacketWriteFailed" {
+					g.emitSkel("rtmp_"+n+"_kinds", []skelEv{}, true, "")
+				}
 			}
 		}
 		g.emitSkel("rtmp_transactions_other_sites", others, true, "")
